@@ -56,6 +56,10 @@ def check(ctx):
     ctx.rule("C10-E", "the context is rebuilt per call and never stored")
     for rid, fn in (("C10-A", rule_a), ("C10-B", rule_b), ("C10-C", rule_c), ("C10-D", rule_d), ("C10-E", rule_e)):
         ctx.guard(rid, fn)
+    from .. import widths as _w
+    ctx.guard("C10-D", _w.rule_estimates_only_at_render, "C10-D")
+    from . import C11
+    ctx.guard("C10-B", C11.rule_a_as, "C10-B")
 
 
 def public_roots(F):
